@@ -1,2 +1,163 @@
-(* C11 — property theorems (being built). *)
-From Klog Require Import Base.Prelude Model.Reconcile Model.Commands.
+(* C11 — inserted text follows the file's own style, deterministically.
+   Property theorems only; each is closed by [exact <lemma>] and followed by Print Assumptions.
+   Model: Model/Reconcile.v (determine, votes_of, tally_up, ascertain, elect, insert, reconciler_at_record) after the
+   fixes F4 (ties of the election go to the value that was voted for first, instead of Go's map order) and F5
+   (indentation and line ending are read off the record's significant lines only).
+   Definitions used in the statements (winner, keeps_explicit, styles_of, indented) are in Proofs/Style.v.
+   Determinism ("repeating the command on the same input yields the same bytes") holds of the model by
+   construction — [exec] is a Gallina function of clock, configuration, command and file, and after F4 nothing in it
+   depends on an iteration order; the content is C11_election_spec/_unique: WHICH value wins is fixed by the votes.
+   The comparison of repeated runs of the real code is the style-election suite.
+   Not here: "the result is always accepted by the parser" is C05_exec_ok_valid. *)
+From Klog Require Import Base.Prelude Model.Calendar Model.Values Model.Record Model.Lines Model.Parser
+  Model.Reconcile Proofs.Style.
+Open Scope Z_scope.
+
+(* 1. the election: the winner was voted for; every value voted for EARLIER has strictly fewer votes, every value
+      voted for LATER has at most as many — i.e. the most voted value wins and a tie goes to the earliest voter *)
+Theorem C11_election_spec : forall (A : Type) (eqb : A -> A -> bool), (forall a, eqb a a = true) ->
+  forall votes d, votes <> [] ->
+  exists pre post, votes = pre ++ tally_up eqb votes d :: post /\
+    (forall v, In v pre -> (count_votes eqb v votes < count_votes eqb (tally_up eqb votes d) votes)%nat) /\
+    (forall v, In v post -> (count_votes eqb v votes <= count_votes eqb (tally_up eqb votes d) votes)%nat).
+Proof. exact (@tally_spec). Qed.
+Print Assumptions C11_election_spec.
+
+(* ... and that description has exactly one solution: the outcome is a function of the votes, not of the algorithm *)
+Theorem C11_election_unique : forall (A : Type) (eqb : A -> A -> bool) votes w1 w2, winner eqb votes w1 -> winner eqb votes w2 -> w1 = w2.
+Proof. exact (@winner_unique). Qed.
+Print Assumptions C11_election_unique.
+
+Theorem C11_election_max : forall (A : Type) (eqb : A -> A -> bool), (forall a, eqb a a = true) ->
+  forall votes d v, In v votes -> (count_votes eqb v votes <= count_votes eqb (tally_up eqb votes d) votes)%nat.
+Proof. exact (@tally_max). Qed.
+Print Assumptions C11_election_max.
+
+(* no votes: the default; unanimous votes: that value; always: a voted value or the default *)
+Theorem C11_default_style : forall (A : Type) (eqb : A -> A -> bool) d, tally_up eqb [] d = d.
+Proof. exact (@tally_nil). Qed.
+Print Assumptions C11_default_style.
+
+Theorem C11_unanimous : forall (A : Type) (eqb : A -> A -> bool), (forall a, eqb a a = true) ->
+  forall votes d v, votes <> [] -> (forall x, In x votes -> x = v) -> tally_up eqb votes d = v.
+Proof. exact (@tally_unanimous). Qed.
+Print Assumptions C11_unanimous.
+
+Theorem C11_elected_is_voted_or_default : forall (A : Type) (eqb : A -> A -> bool), (forall a, eqb a a = true) ->
+  forall votes d, (votes = [] /\ tally_up eqb votes d = d) \/ In (tally_up eqb votes d) votes.
+Proof. exact (@tally_voted_or_default). Qed.
+Print Assumptions C11_elected_is_voted_or_default.
+
+(* 2. the same at the level of the elected style, for any of the six facts [f] (line ending, indentation, date
+      separator, clock convention, dash spacing, placeholder length) that the base (the target record, or the
+      built-in default for a new record) does not exhibit itself *)
+Theorem C11_elected_unanimous : forall (A : Type) (eqb : A -> A -> bool), (forall a, eqb a a = true) ->
+  forall (f : style -> sprop A) base ss, sp_explicit (f base) = false ->
+  forall v, (exists s, In s ss /\ sp_explicit (f s) = true) ->
+  (forall s, In s ss -> sp_explicit (f s) = true -> sp_val (f s) = v) ->
+  sp_val (ascertain eqb (votes_of (map f ss)) (f base)) = v.
+Proof. exact (@elected_unanimous). Qed.
+Print Assumptions C11_elected_unanimous.
+
+Theorem C11_elected_default : forall (A : Type) (eqb : A -> A -> bool)
+  (f : style -> sprop A) base ss, sp_explicit (f base) = false ->
+  (forall s, In s ss -> sp_explicit (f s) = false) ->
+  sp_val (ascertain eqb (votes_of (map f ss)) (f base)) = sp_val (f base).
+Proof. exact (@elected_default). Qed.
+Print Assumptions C11_elected_default.
+
+Theorem C11_elected_voted_or_default : forall (A : Type) (eqb : A -> A -> bool), (forall a, eqb a a = true) ->
+  forall (f : style -> sprop A) base ss, sp_explicit (f base) = false ->
+  sp_val (ascertain eqb (votes_of (map f ss)) (f base)) = sp_val (f base) \/
+  exists s, In s ss /\ sp_explicit (f s) = true /\ sp_val (f s) = sp_val (ascertain eqb (votes_of (map f ss)) (f base)).
+Proof. exact (@elected_voted_or_default). Qed.
+Print Assumptions C11_elected_voted_or_default.
+
+(* the elected style IS these elections, over the records' styles in file order *)
+Theorem C11_elect_facts : forall base rs bs,
+  st_eol (elect base rs bs) = ascertain bytes_eqb (votes_of (map st_eol (styles_of rs bs))) (st_eol base) /\
+  st_indent (elect base rs bs) = ascertain bytes_eqb (votes_of (map st_indent (styles_of rs bs))) (st_indent base) /\
+  st_dashes (elect base rs bs) = ascertain Bool.eqb (votes_of (map st_dashes (styles_of rs bs))) (st_dashes base) /\
+  st_24h (elect base rs bs) = ascertain Bool.eqb (votes_of (map st_24h (styles_of rs bs))) (st_24h base) /\
+  st_spaces (elect base rs bs) = ascertain Bool.eqb (votes_of (map st_spaces (styles_of rs bs))) (st_spaces base) /\
+  st_extra (elect base rs bs) = ascertain Nat.eqb (votes_of (map st_extra (styles_of rs bs))) (st_extra base).
+Proof. intros. repeat split. Qed.
+Print Assumptions C11_elect_facts.
+
+(* a new record in a file whose records exhibit neither line ending nor indentation: LF and four spaces *)
+Theorem C11_new_record_default_style : forall rs bs,
+  (forall s, In s (styles_of rs bs) -> sp_explicit (st_eol s) = false) ->
+  (forall s, In s (styles_of rs bs) -> sp_explicit (st_indent s) = false) ->
+  sp_val (st_eol (elect default_style rs bs)) = [10%N] /\
+  sp_val (st_indent (elect default_style rs bs)) = [32; 32; 32; 32]%N.
+Proof. exact new_record_default_style. Qed.
+Print Assumptions C11_new_record_default_style.
+
+(* 3. own style wins: every fact the target record exhibits itself is the fact of the reconciler's style *)
+Theorem C11_own_style_wins : forall d rs bs rc, reconciler_at_record d rs bs = Some rc ->
+  exists r b, rc_record rc = r /\ In b bs /\
+    keeps_explicit st_eol (determine r b) (rc_style rc) /\ keeps_explicit st_indent (determine r b) (rc_style rc) /\
+    keeps_explicit st_dashes (determine r b) (rc_style rc) /\ keeps_explicit st_24h (determine r b) (rc_style rc) /\
+    keeps_explicit st_spaces (determine r b) (rc_style rc) /\ keeps_explicit st_extra (determine r b) (rc_style rc).
+Proof. exact own_style_wins. Qed.
+Print Assumptions C11_own_style_wins.
+
+(* what a record exhibits: the ending of its first significant line; the indentation of its first indented
+   significant line (after F5: blank lines of the block do not count) *)
+Theorem C11_determine_eol : forall r b,
+  st_eol (determine r b) =
+  match fst (fst (significant_lines b)) with
+  | l :: _ => match l_ending l with [] => sdef [10%N] | e => sset e end
+  | [] => sdef [10%N]
+  end.
+Proof. exact determine_eol. Qed.
+Print Assumptions C11_determine_eol.
+
+Theorem C11_determine_indent : forall r b,
+  st_indent (determine r b) =
+  match first_some_indent (fst (fst (significant_lines b))) with
+  | Some i => sset i
+  | None => sdef [32; 32; 32; 32]%N
+  end.
+Proof. exact determine_indent. Qed.
+Print Assumptions C11_determine_indent.
+
+Theorem C11_own_eol_wins : forall d rs bs rc, reconciler_at_record d rs bs = Some rc ->
+  exists b, In b bs /\ forall l rest e0 e, fst (fst (significant_lines b)) = l :: rest -> l_ending l = e0 :: e ->
+    st_eol (rc_style rc) = sset (e0 :: e).
+Proof. exact own_eol_wins. Qed.
+Print Assumptions C11_own_eol_wins.
+
+Theorem C11_own_indent_wins : forall d rs bs rc, reconciler_at_record d rs bs = Some rc ->
+  exists b, In b bs /\ forall i, first_some_indent (fst (fst (significant_lines b))) = Some i ->
+    st_indent (rc_style rc) = sset i.
+Proof. exact own_indent_wins. Qed.
+Print Assumptions C11_own_indent_wins.
+
+(* 4. insert uses the style: the k-th inserted text becomes line idx + k, and that line is
+      indentation^level ++ text ++ line ending, split into text and ending *)
+Theorem C11_insert_uses_style : forall st idx texts ls ls' k t, insert st idx texts ls = Ok ls' ->
+  nth_error texts k = Some t ->
+  nth_error ls' (Z.to_nat idx + k) = Some (new_line (repeat_bytes (sp_val (st_indent st)) (snd t) ++ fst t ++ sp_val (st_eol st))).
+Proof. exact insert_uses_style. Qed.
+Print Assumptions C11_insert_uses_style.
+
+Theorem C11_inserted_line_lf : forall st t, sp_val (st_eol st) = [10%N] -> ~ (exists t', indented st t = t' ++ [13%N]) ->
+  mk_inserted st t = {| l_text := repeat_bytes (sp_val (st_indent st)) (snd t) ++ fst t; l_ending := [10%N] |}.
+Proof. exact mk_inserted_lf. Qed.
+Print Assumptions C11_inserted_line_lf.
+
+Theorem C11_inserted_line_crlf : forall st t, sp_val (st_eol st) = [13; 10]%N ->
+  mk_inserted st t = {| l_text := repeat_bytes (sp_val (st_indent st)) (snd t) ++ fst t; l_ending := [13; 10]%N |}.
+Proof. exact mk_inserted_crlf. Qed.
+Print Assumptions C11_inserted_line_crlf.
+
+(* ---- non-vacuity ---- *)
+(* a tie between two-space and tab indentation: the first voter wins (F4's witness, now deterministic) *)
+Example ex_tie : tally_up bytes_eqb [[32; 32]; [9]; [9]; [32; 32]]%N [32; 32; 32; 32]%N = [32; 32]%N.
+Proof. reflexivity. Qed.
+Example ex_majority : tally_up bytes_eqb [[32; 32]; [9]; [9]]%N [32; 32; 32; 32]%N = [9]%N.
+Proof. reflexivity. Qed.
+Example ex_winner : winner bytes_eqb [[32; 32]; [9]; [9]; [32; 32]]%N [32; 32]%N.
+Proof. exists [], [[9]; [9]; [32; 32]]%N. split; [reflexivity|]. split; [intros v []|]. intros v Hv. cbn in Hv.
+  destruct Hv as [<-|[<-|[<-|[]]]]; cbn; lia. Qed.
